@@ -145,6 +145,11 @@ class Builder:
         ik = self.d(st.sampled_from(["N", "N", "NA"]))
         self.n += 1
         m = "f%d" % self.n
+        if self.d(st.integers(0, 3)) == 0:
+            # the outer column stands in the inner SELECT LIST only: outer.x IN (SELECT n.k + outer.m FROM n)
+            self.occ.append([m, outer_key, "corr_outer_sel"])
+            sub = {"cls": "inherit", "sources": {}, "steps": [["from_", [["src", ik]]], ["select", [["add", self.f(ik, "corr_select"), ["col", outer_key, m]]]]]}
+            return ["in", self.f(outer_key, "where"), ["q", sub]]
         swap = self.d(st.booleans())
         pair = [[m, outer_key, "corr_outer"], [m, ik, "corr_inner"]]
         self.occ += pair[::-1] if swap else pair
@@ -221,6 +226,9 @@ def program(draw):
         if draw(st.booleans()):
             sel[0] = ["as", sel[0], "al1"]
         steps.append(["select", sel])
+        if cls == "postgresql" and draw(st.integers(0, 2)) == 0:
+            # DISTINCT ON holds column references like any other clause (by field object or by name)
+            steps.append(["distinct_on", [b.fstr(sources[0], "distinct_on") if draw(st.booleans()) else b.f(draw(st.sampled_from(sources)), "distinct_on")]])
         if draw(st.integers(0, 9)) < 7:
             if draw(st.integers(0, 5)) == 0:
                 foreign = True
@@ -323,6 +331,9 @@ def program(draw):
             sources.append(fk)
         for _ in range(draw(st.integers(1, 2))):
             steps.append(["set", [b.f(tk, "set_target"), b.operand(sources, "set_value")]])
+        if kind == "update_join" and cls == "mysql" and fk != "P3" and draw(st.booleans()):
+            # MySQL's multi-table UPDATE may assign to a column of the JOINED table: that target needs its source's name
+            steps.append(["set", [b.f(fk, "set_target_joined"), ["raw", 1]]])
         if draw(st.integers(0, 9)) < 8:
             steps.append(["where", [b.crit(sources, "where")]])
         if cls == "mysql" and draw(st.booleans()):
@@ -394,7 +405,7 @@ def expected(case, key, pos):
         return ("either", name)
     if pos == "conflict_value_source":
         return name  # target row and source row are both in scope there: a bare column means the target's
-    if pos in ("corr_outer", "corr_inner", "corr_select"):
+    if pos in ("corr_outer", "corr_inner", "corr_select", "corr_outer_sel"):
         return name  # the inner query refers to a table of the outer one: both of its namespaces are needed
     if is_aliased(key, case) or multi_source(case):
         return name
@@ -479,6 +490,9 @@ def check_program(case):
                 shape = "aliased" if key and is_aliased(key) else (POOL[key][0] if key else "none")
                 shape = {"QU": "preused_query", "UN": "auto_setop", "QN": "auto_query", "QN2": "auto_query", "P3": "self_join", "P4": "self_join", "TS": "self_join"}.get(key, shape)
                 sig = mksig(cls if pos in ("update_orderby", "returning") or case["kind"].startswith("update_j") else "any", case["kind"], pos, shape, fail)
+                if any(o[2] == "corr_outer_sel" for o in case["occ"]) and pos in ("corr_outer_sel", "corr_select"):
+                    # one root cause whatever the two sources are: the inner query does not see that its select list names an outer table
+                    sig = mksig("any", "correlated_select_list", fail)
                 if sig not in seen:
                     seen.add(sig)
                     out.append((sig, "field %s of source %s at %s: expected qualifier %r, rendered %r in %r" % (name, key, pos, exp, got, sql)))
